@@ -89,14 +89,20 @@ func TestVerifC04Procs(t *testing.T) {
 		}
 		// Optionally fill most of the first page beforehand (sequentially, by process 0), so that
 		// the racing record creations happen right at the point where the file has to grow.
-		prefill := rapid.SampledFrom([]int{0, 0, 2, 3, 3}).Draw(t, "prefill")
+		// (six or seven of them fill the second page as well: the processes that did not write them still have the
+		// file mapped one page long when the race starts, while the file's end and its limit lie two pages further)
+		prefill := rapid.SampledFrom([]int{0, 0, 2, 3, 3, 6, 7}).Draw(t, "prefill")
 		if openInRace {
 			prefill = 0
 		}
 		prefilled := map[string]uint64{}
+		filler := 0
+		if prefill > 0 {
+			filler = rapid.IntRange(0, nprocs-1).Draw(t, "prefillBy")
+		}
 		for i := 0; i < prefill; i++ {
-			name := fmt.Sprintf("fill%d/", i) + strings.Repeat("f", rapid.IntRange(3700, 4080).Draw(t, "fillLen"))
-			(&Counter{name: name, file: files[0]}).Add(1)
+			name := fmt.Sprintf("fill%d/", i) + strings.Repeat("f", rapid.OneOf(rapid.IntRange(3700, 4080), rapid.IntRange(3000, 4080)).Draw(t, "fillLen"))
+			(&Counter{name: name, file: files[filler]}).Add(1)
 			prefilled[name] = 1
 		}
 		// one case in eight: every amount is close to 2^63, so that the shared value reaches its limit through several
